@@ -9,6 +9,7 @@ import Rare.Proofs.C09Err
 import Rare.Proofs.C09WF
 import Rare.Proofs.C09WFB
 import Rare.Proofs.C09WFAll
+import Rare.Proofs.C09Pos
 import Rare.Gen.Tables
 /-!
 Property C09 – template syntax: literals, escapes, quotes and nesting parse as documented.
@@ -434,6 +435,56 @@ theorem printed_tree_wellformed (reg : Registry) (fn : List Char → List Bytes 
   obtain ⟨st, h, _⟩ := print_compile reg fn false σ e ha hreg
   exact (compile_ok_iff_wellformed reg false _ st [] h).mp (fun e he => by cases he)
 
+/-! ### Which errors, where, with which text, in which order – for ALL templates -/
+
+/-- **The syntax errors `Compile` records are exactly `synErrs` – for every template.**
+    `synErrs split known t` (`Spec/C09Pos.lean`, no reference to `Compile`) lists, for each closed top-level statement
+    in order of appearance: `empty statement` with the raw text `{…}` at the rune index of its `{` when it has no
+    argument; nothing when it has one; `missing function` with the statement's body at the index of its `{` when the
+    head is unknown (arguments not looked at); otherwise the syntax errors of each further argument, compiled as a
+    template of its own, in order, each with its own context text and its index moved by the index of the enclosing
+    top-level statement's `{` (`CompilerErrors.inherit`); and last `non-terminated statement` with the text from the
+    open `{` to the end.  For EVERY template, every registry, optimiser on or off: whenever `Compile` returns, the
+    recorded errors of the three parser kinds (`synOf errs`: builder errors dropped, order kept) are that list –
+    same kinds, same number, same order, same context texts, same indices, at every nesting level.  This is the
+    mechanism "error accumulation with offsets" (`errors.go` `add` / `inherit`) for all inputs; the `_reported`
+    theorems above are its single-statement instances. -/
+theorem syntax_errors_exact (reg : Registry) (opt : Bool) (t : List Char) (stages : List Stage)
+    (errs : List CErr) (h : compile reg opt t = .ok (stages, errs)) :
+    synOf errs = synErrs splitArgs (fun name => (reg name).isSome) t :=
+  compileF_syn reg opt (t.length + 1) t stages errs h
+
+/-- **The whole error list**, for registries whose builders never return an error value (`NoBuilderErr`, e.g. the
+    probe registry): `Compile`'s error list IS `synErrs` (as recorded errors), nothing more, nothing less. -/
+theorem all_errors_exact (reg : Registry) (opt : Bool) (hreg : NoBuilderErr reg) (t : List Char)
+    (stages : List Stage) (errs : List CErr) (h : compile reg opt t = .ok (stages, errs)) :
+    errs = (synErrs splitArgs (fun name => (reg name).isSome) t).map SynErr.toCErr := by
+  rw [← syntax_errors_exact reg opt t stages errs h]
+  exact synOf_allSyn errs (compileF_allSyn reg opt hreg (t.length + 1) t (by omega) _ (by omega) stages errs h)
+
+/-- **The recursion equation of `synErrs`** (its definition runs on fuel; more fuel than the template has runes is
+    always enough, so the equation holds as the spec's header states it): the errors of a template are the errors
+    of its closed statements in order – where the errors one level down are again `synErrs` of the argument – followed
+    by the error of the open statement, if any. -/
+theorem syntax_errors_unfold (known : List Char → Bool) (t : List Char) :
+    synErrs splitArgs known t =
+      (stmts t).flatMap (stmtErrs splitArgs known (synErrs splitArgs known) t) ++ openErr t :=
+  synErrs_unfold_gen splitArgs known (fun _ _ h => splitArgs_length h) t
+
+/-- **What the positions are.**  The statements `stmts t` of the error spec are the statements of the grammar
+    (`bodies`, same order); each starts at a rune that is `{` and ends at a later rune that is `}`; they are listed
+    left to right and do not overlap; the open statement (if any) starts at a `{` too, and there is one iff the
+    template is `Unterminated`.  So the index of every error of a top-level statement is the rune index of the `{`
+    that opens the offending statement, and top-level errors come in text order. -/
+theorem statement_positions (t : List Char) :
+    (stmts t).map (·.body) = bodies t ∧
+    (∀ x ∈ stmts t, t[x.start]? = some '{' ∧ t[x.stop]? = some '}' ∧ x.start < x.stop) ∧
+    (stmts t).Pairwise (fun x y => x.stop < y.start) ∧
+    (∀ k, openStart t = some k → t[k]? = some '{') ∧
+    (openStart t ≠ none ↔ Unterminated t) :=
+  ⟨stmts_bodies t, stmts_pos t, stmts_sorted t, openStart_pos t,
+    by unfold Unterminated; exact not_congr (openStart_none_iff t)⟩
+
 /-! ### errors.go: what the user sees -/
 
 /-- The texts of the model's error rendering are the source's: the three sentinel messages, the format of
@@ -732,5 +783,28 @@ example : NoBuilderErr sampleReg := by
   split at h
   · cases h; simp only [pureBuilder, Except.ok.injEq] at hb; subst hb; rfl
   · cases h
+
+/-- `ab{f x {}}`: ONE error, `empty statement`, text `{}` – with index 2 (the `{` of the enclosing statement, inner
+    index 0 added), although the text `{}` stands at rune 7: the index of an inherited error is relative to the
+    enclosing top-level statement, not a position of the context text (`errors.go` `inherit`; modelled as it is). -/
+example : synErrs splitArgs (fun n => n == ['f']) "ab{f x {}}".toList = [⟨.emptyStatement, "{}".toList, 2⟩] := by
+  decide +kernel
+
+/-- two levels down the starts add up: `ab{f xx {f yyy {}}}` reports index 2 + 0 + 0; a statement behind text inside
+    an argument keeps its inner offset: `{f "ab{nofn x}cd{}"}` reports `missing` at 0 + 2 and `empty` at 0 + 12; quotes do
+    not hide braces from `Compile`'s own brace count: `{f "{"}` is unterminated as a whole -/
+example : synErrs splitArgs (fun n => n == ['f']) "ab{f xx {f yyy {}}}".toList = [⟨.emptyStatement, "{}".toList, 2⟩] ∧
+    synErrs splitArgs (fun n => n == ['f']) "{f \"ab{nofn x}cd{}\"}".toList =
+      [⟨.missingFunction, "nofn x".toList, 2⟩, ⟨.emptyStatement, "{}".toList, 12⟩] ∧
+    synErrs splitArgs (fun n => n == ['f']) "{f \"{\"}".toList = [⟨.unterminated, "{f \"{\"}".toList, 0⟩] := by
+  decide +kernel
+
+/-- order and texts at top level: `a{}b{nofn x}c{ }{` – three closed statements and an open one -/
+example : synErrs splitArgs (fun n => n == ['f']) "a{}b{nofn x}c{ }{".toList =
+    [⟨.emptyStatement, "{}".toList, 1⟩, ⟨.missingFunction, "nofn x".toList, 4⟩, ⟨.emptyStatement, "{ }".toList, 13⟩,
+     ⟨.unterminated, "{".toList, 16⟩] ∧
+    stmts "a{}b{nofn x}c{ }{".toList = [⟨1, 2, []⟩, ⟨4, 11, "nofn x".toList⟩, ⟨13, 15, [' ']⟩] ∧
+    openStart "a{}b{nofn x}c{ }{".toList = some 16 := by
+  decide +kernel
 
 end Rare.C09
